@@ -1,5 +1,6 @@
 import Vita.C12.FlowTable
 import Vita.C12.Lemmas
+import Vita.C11.Toy
 /-!
   C12 — a failed load leaves the target untouched (property theorems).
 
@@ -313,6 +314,64 @@ theorem summary_fail_untouched (io : FloatIO F) (tab : SymTab) (t : Summary F) (
   parseThenCommit_fail _ _ t s h
 theorem summary_ok_iff (io : FloatIO F) (tab : SymTab) (t : Summary F) (s : Str) :
     (Summary.loadInto io tab t s).ok = (Summary.load io tab s).isSome := parseThenCommit_ok_iff _ _ t s
+
+/-! `cache::load` (outside the property: documented "could be changed") -/
+
+/-- what a failed `cache::load` leaves untouched: the seal, the number of bits, the size of the table -/
+theorem cache_fail_seal_untouched (io : FloatIO F) (c : Cache F) (s : Str)
+    (h : (Cache.loadIntoT io c s).ok = false) :
+    (Cache.loadIntoT io c s).target.sl = c.sl ∧ (Cache.loadIntoT io c s).target.bits = c.bits ∧
+    (Cache.loadIntoT io c s).target.table.length = c.table.length := by
+  unfold Cache.loadIntoT at h ⊢
+  cases h1 : readU U32 s with
+  | none => exact ⟨rfl, rfl, rfl⟩
+  | some p =>
+    obtain ⟨sl, s1⟩ := p
+    simp only [h1] at h ⊢
+    cases h2 : readU U64 s1 with
+    | none => exact ⟨rfl, rfl, rfl⟩
+    | some q =>
+      obtain ⟨n, s2⟩ := q
+      simp only [h2] at h ⊢
+      cases hk : (Cache.loadSlots io c.bits sl n c.table s2).ok with
+      | true => simp [hk] at h
+      | false => simp [loadSlots_length]
+
+/-- the statement-by-statement model succeeds exactly when the C11 model of `cache::load` does, with the
+    same cache -/
+theorem cache_ok_iff (io : FloatIO F) (c : Cache F) (s : Str) :
+    (Cache.loadIntoT io c s).ok = (Cache.loadInto io c s).isSome ∧
+    ∀ c' r, Cache.loadInto io c s = some (c', r) →
+      (Cache.loadIntoT io c s).target = c' ∧ (Cache.loadIntoT io c s).rest = r := by
+  unfold Cache.loadIntoT Cache.loadInto
+  simp only [P.bind_apply]
+  cases h1 : readU U32 s with
+  | none => simp
+  | some p =>
+    obtain ⟨sl, s1⟩ := p
+    simp only []
+    cases h2 : readU U64 s1 with
+    | none => simp
+    | some q =>
+      obtain ⟨n, s2⟩ := q
+      simp only []
+      have := loadSlots_spec io c.bits sl n c.table s2
+      cases h3 : readN (Slot.load io) n s2 with
+      | none =>
+        simp only [h3] at this
+        simp [this]
+      | some w =>
+        obtain ⟨slots, r⟩ := w
+        simp only [h3] at this
+        simp [this, P.pure_apply]
+
+/-- `cache::load` is NOT commit-last in the model either: a record that announces two slots and holds one
+    makes the load fail after the first slot has been stored -/
+example : (Cache.loadIntoT toyIO (Cache.fresh 1) "7\n2\n5 9\n1 \n".toList).ok = false ∧
+    (Cache.loadIntoT toyIO (Cache.fresh 1) "7\n2\n5 9\n1 \n".toList).target.table.map (·.sl) = [0, 7] ∧
+    (Cache.fresh (F := Bool) 1).table.map (·.sl) = [0, 0] ∧
+    (Cache.loadIntoT toyIO (Cache.fresh 1) "7\n2\n5 9\n1 \n".toList).target.sl = 1 := by
+  decide
 
 /-- non-vacuity of (b): a truncated stream makes the model fail, and the target survives -/
 example : (IGaT.loadInto ⟨3, [1, 2], ⟨5, 6⟩⟩ ['7', '\n', '2', '\n', '9', '\n']).ok = false := by decide
